@@ -1099,4 +1099,113 @@ theorem total_power (x : List ℝ) :
   exact this
 
 end real
+/-! ## Parseval for the windowed spectrum -/
+
+section real
+open RealLike
+
+/-- the one-sided fold of a sequence of `npw` two-sided bins -/
+noncomputable def oneSided (S : ℕ → ℝ) (npw : ℕ) : ℝ :=
+  S 0 + 2 * ∑ k ∈ Finset.range ((npw - 1) / 2), S (k + 1) + if npw % 2 = 0 then S (npw / 2) else 0
+
+theorem oneSided_add (S T : ℕ → ℝ) (npw : ℕ) :
+    oneSided (fun k => S k + T k) npw = oneSided S npw + oneSided T npw := by
+  unfold oneSided
+  rw [Finset.sum_add_distrib]
+  split <;> ring
+
+theorem oneSided_zero (npw : ℕ) : oneSided (fun _ => 0) npw = 0 := by
+  unfold oneSided; simp
+
+/-- one window: the one-sided fold of its squared DFT is `N·Σ w²` -/
+theorem oneSided_window (w : List ℝ) (npw : ℕ) (hn : 0 < npw) (hl : w.length = npw) :
+    oneSided (fun k => dftSq w k) npw = (npw : ℝ) * (w.map fun v => v * v).sum := by
+  have hsym : ∀ k, 0 < k → k < npw → dftSq w (npw - k) = dftSq w k := by
+    intro k _ hk
+    have := dftSq_reflect w k (by omega)
+    rwa [hl] at this
+  have hpl := plancherel w
+  rw [← list_sum_eq_finset w (fun v => v * v), hl] at hpl
+  rw [← hpl]
+  unfold oneSided
+  rcases Nat.even_or_odd' npw with ⟨h, hh | hh⟩
+  · obtain ⟨h', rfl⟩ : ∃ h', h = h' + 1 := ⟨h - 1, by omega⟩
+    have hN2 : npw = 2 * h' + 2 := by omega
+    subst hN2
+    have hfold := fold_even (fun k => dftSq w k) h' (by
+      intro k hk1 hk2
+      exact hsym k hk1 hk2)
+    have e1 : (2 * h' + 2 - 1) / 2 = h' := by omega
+    have e2 : (2 * h' + 2) % 2 = 0 := by omega
+    have e3 : (2 * h' + 2) / 2 = h' + 1 := by omega
+    rw [e1, if_pos e2, e3, hfold]
+  · subst hh
+    have hfold := fold_odd (fun k => dftSq w k) h (by
+      intro k hk1 hk2
+      exact hsym k hk1 hk2)
+    have e1 : (2 * h + 1 - 1) / 2 = h := by omega
+    have e2 : ¬ (2 * h + 1) % 2 = 0 := by omega
+    rw [e1, if_neg e2, hfold]; ring
+
+theorem oneSided_windows (W : List (List ℝ)) (npw : ℕ) (hn : 0 < npw) (hW : ∀ w ∈ W, w.length = npw) :
+    oneSided (fun k => (W.map fun w => dftSq w k).sum) npw
+      = (npw : ℝ) * (W.map fun w => (w.map fun v => v * v).sum).sum := by
+  induction W with
+  | nil => simp [oneSided_zero]
+  | cons w W ih =>
+    simp only [List.map_cons, List.sum_cons]
+    rw [oneSided_add (fun k => dftSq w k) (fun k => (W.map fun w => dftSq w k).sum), ih (fun v hv => hW v (List.mem_cons_of_mem _ hv)),
+      oneSided_window w npw hn (hW w List.mem_cons_self)]
+    ring
+
+/-- the windows tile the first `⌊n/npw⌋·npw` samples -/
+theorem sum_chunks_aux {β} (l : List β) (f : β → ℝ) (npw : ℕ) : ∀ c, 
+    ((List.range c).map fun i => (((l.drop (i * npw)).take npw).map f).sum).sum = ((l.take (c * npw)).map f).sum := by
+  intro c
+  induction c with
+  | zero => simp
+  | succ c ih =>
+    rw [List.range_succ, List.map_append, List.sum_append, ih]
+    simp only [List.map_cons, List.map_nil, List.sum_cons, List.sum_nil, add_zero]
+    rw [show (c + 1) * npw = c * npw + npw by ring, List.take_add, List.map_append, List.sum_append]
+
+theorem sum_chunks {β} (l : List β) (f : β → ℝ) (npw : ℕ) :
+    ((chunks l npw).map fun w => (w.map f).sum).sum = ((l.take (l.length / npw * npw)).map f).sum := by
+  unfold chunks
+  rw [List.map_map]
+  exact sum_chunks_aux l f npw _
+
+/-- bin `k ≤ N_w/2` of the windowed spectrum -/
+theorem psdPower_bin (fs : ℝ) (x : List ℝ) (npw k : ℕ) (hk : k ≤ npw / 2) :
+    (psdPower x fs npw).getD k 0 =
+      scaling fs npw * (((chunks (demean x) npw).map fun w => dftSq w k).sum / ((x.length / npw : ℕ) : ℝ)) := by
+  have hL : (((chunks (demean x) npw).map rfftSq).map fun r => r.getD k (0.0 : ℝ))
+      = (chunks (demean x) npw).map fun w => dftSq w k := by
+    rw [List.map_map]
+    apply List.map_congr_left
+    intro w hw
+    have hl := mem_chunks_length _ npw w hw
+    simp only [Function.comp]
+    unfold rfftSq
+    rw [hl, getD_map_range _ _ _ _ (by omega)]
+  rw [psdPower_def]
+  unfold meanRows
+  rw [List.map_map, getD_map_range _ _ _ _ (by omega)]
+  simp only [Function.comp]
+  have hlen : (chunks (demean x) npw).length = x.length / npw := by
+    rw [chunks_length]; simp [demean]
+  rw [hL, ofNat'_real, List.length_map, hlen, rsum_real]
+
+
+/-- mean square deviation, from the mean of the WHOLE signal, of the samples the windows use (`np.mean((x[:tsu] - x.mean())**2)`);
+    written without reference to the model -/
+noncomputable def usedMeanSq (x : List ℝ) (npw : ℕ) : ℝ :=
+  ((x.take (x.length / npw * npw)).map fun v => (v - x.sum / x.length) * (v - x.sum / x.length)).sum
+    / ((x.length / npw * npw : ℕ) : ℝ)
+
+theorem usedMeanSq_of_dvd (x : List ℝ) (npw : ℕ) (hd : npw ∣ x.length) : usedMeanSq x npw = variance x := by
+  unfold usedMeanSq variance
+  rw [Nat.div_mul_cancel hd, List.take_length]
+
+end real
 end Verif.C10
